@@ -4,7 +4,7 @@ ID=$1; shift
 P=/tmp/mut/$ID/OUT/patch.diff
 [ -f /verif/seeded/$ID/patch.diff ] && P=/verif/seeded/$ID/patch.diff
 git -C /repo diff --quiet || { echo "/repo not clean"; exit 2; }
-git -C /repo apply "$P" || exit 2
+git -C /repo apply "$P" 2>/dev/null || git -C /repo apply -C1 "$P" || exit 2
 cd /verif
 for c in "$@"; do
   out=$(timeout 900 ./check $c --tier quick 2>&1); rc=$?
